@@ -255,10 +255,9 @@ func (evkg EvaluationKeyGenProtocol) GenEvaluationKey(share EvaluationKeyGenShar
 	m := share.Value
 	p := crp.Value
 
-	BaseRNSDecompositionVectorSize := len(m)
-	BaseTwoDecompositionVectorSize := len(m[0])
-	for i := 0; i < BaseRNSDecompositionVectorSize; i++ {
-		for j := 0; j < BaseTwoDecompositionVectorSize; j++ {
+	// The number of power-of-two digits depends on the size of each prime: it may differ from row to row.
+	for i := range m {
+		for j := range m[i] {
 			evk.Value[i][j][0].Copy(m[i][j][0])
 			evk.Value[i][j][1].Copy(p[i][j])
 		}
